@@ -44,6 +44,7 @@ type Conf struct {
 	Paths    bool // allow path(p), paths, getpath...
 	Builtins bool // allow calls of assorted jq-defined builtins
 	Loops    bool // allow potentially long loops (range(n) with bigger n, repeat under limit)
+	Env      bool // allow $ENV / env terms (the caller compiles with EnvLoader; the model's environment is empty)
 	MaxNodes int
 }
 
@@ -803,6 +804,16 @@ var rwLiterals = []string{"[1,2,3]", "[1,[2],{\"a\":3}]", "[1,.,3]", "[1,(2,3)]"
 
 var rwArgs = []string{".", "1", "\"a\"", ".a", "-1", "[1]", "{}", "(label $l | .)", "(. as $y | $y)", "empty", "error", ".[]?", "(1,2)", "length", "null", "true", "(label $l | 1)", "(1 as $q | $q)", ".[0]?", "(.a?, .b?)", "\"a\\(.)\"?", "(try error catch .)", "(reduce .[]? as $i (0; . + 1))", "(if . then 1 else 2 end)", "first(1,2)", "[.]", "(label $l | ., break $l)", "$__loc__.line", "(. // 1)", "-(1)", "-.a?", "(.a?)"}
 
+// EnvLoader is the environment the programs of Conf.Env are written for.
+func EnvLoader() []string { return []string{"VERIF_A=a", "VERIF_B=", "VERIF_N=1", "VERIF_J=[1]"} }
+
+// terms whose value is known at compile time but which are navigation steps
+// all the same (usable as literals and as left-hand sides)
+var rwEnvTerms = []string{"$ENV.VERIF_A", "env.VERIF_A", "$ENV[\"VERIF_A\"]", "env[\"VERIF_A\"]", "$ENV.UNSET", "env.UNSET", "$ENV.VERIF_B", "$ENV.VERIF_N", "env.VERIF_J", "$ENV.VERIF_A[0:1]", "$ENV.\"VERIF_A\"",
+	"($ENV).VERIF_A", "($ENV | .VERIF_A)", "(env | .UNSET)", "$ENV.VERIF_A.x", "$ENV?.VERIF_A", "$ENV.VERIF_A?", "$ENV[\"VERIF\" + \"_A\"]", "$ENV[(\"VERIF_A\", \"UNSET\")]", "$ENV", "env", "$ENV | length", "[$ENV.VERIF_A, env.VERIF_N]",
+	"$__loc__.line", "$__loc__.file", "$__loc__[\"line\"]", "$__loc__.x", "$__loc__", "{a: $ENV.VERIF_A}.a", "[env.VERIF_A][0]", "($ENV.VERIF_J | fromjson)", "$ENV.VERIF_A as $e | $e", ". as $ENV | $ENV.VERIF_A?", "def env: {VERIF_A: 2}; env.VERIF_A",
+	"null.a", "null[0]", "null[1:]", "\"abc\"[1:]", "\"abc\"[1:][:1]", "{}.a", "{}.a.b", "[][0]", "[[1]][0][0]", "{a: {b: 1}}.a.b", "{a: 1}[\"a\"]", "[1,2,3][1:][0]", "{\"a\": null}.a", "{a: \"a\"}.a", "[\"a\"][0]", "[null][0]", "1.a?", "\"a\".a?", "[1].a?", "{}[0]?"}
+
 var rwOps = []string{"+", "-", "*", "/", "%", "==", "!=", "<", "<=", ">", ">=", "and", "or", "//"}
 
 var rwPaths = []string{".a", ".a.b", ".[0]", ".a[1:2]", ".[\"a\"]", "(.a)", "(.a).b", ".a[0].b[1:]", ".[-1]", ".a[.b]", ".[1.5]", ".\"a\"", ".a.\"b\"", ".[1:]", ".[:1]", ".a[0]", ".[0][0]", ".a[\"b\"]", ".[\"abc\"[1:]]", ".[-1[0]?]", ".[0:1][0]", ".a[1:][1:]", "(.a[0])", "((.a).b).c", ".[2]", ".a[5]", ".[\"a\"].b[0]", ".a[null:1]", ".[1:null]"}
@@ -896,7 +907,10 @@ func RewriteBiased(conf Conf) *rapid.Generator[Prog] {
 		switch rapid.IntRange(0, 9).Draw(t, "rwkind") {
 		case 0, 1:
 			c.feat("rw/literal")
-			if rapid.Bool().Draw(t, "genlit") {
+			if conf.Env && rapid.IntRange(0, 3).Draw(t, "envlit") == 0 {
+				c.feat("rw/env-term")
+				core = pick(t, "envterm", rwEnvTerms)
+			} else if rapid.Bool().Draw(t, "genlit") {
 				core = constLiteral(t, 3)
 			} else {
 				core = pick(t, "lit", rwLiterals)
@@ -928,6 +942,10 @@ func RewriteBiased(conf Conf) *rapid.Generator[Prog] {
 		case 4, 5:
 			c.feat("rw/const-path")
 			upd := func() string {
+				if conf.Env && rapid.IntRange(0, 3).Draw(t, "envpath") == 0 {
+					c.feat("rw/env-term")
+					return pick(t, "envpath", rwEnvTerms) + " " + pick(t, "asg", []string{"=", "=", "|=", "+="}) + " " + pick(t, "rhs", rwRHS)
+				}
 				return pick(t, "path", rwPaths) + " " + pick(t, "asg", []string{"=", "=", "=", "|=", "+=", "//="}) + " " + pick(t, "rhs", rwRHS)
 			}
 			core = upd()
